@@ -23,7 +23,7 @@ type unitDef struct {
 }
 
 func runC15(c *Check) {
-	c.Explanation = "Decides the unit-table part of C15 (the float arithmetic is out of static reach): the table of known units is evaluated from its literal and checked for well-formedness — aliases are pairwise distinct across all families (no cross-family or ambiguous conversion), every alias survives the normalisation that sniffUnit applies before the lookup (so no listed spelling is dead), every canonical name that pprof prints resolves back to its own unit, factors are positive and strictly increasing inside a family, each factor equals the one its long alias implies (binary steps for bytes, SI steps for time and GCU, 3600 s per hour), the default unit of a family is one of its units with the same factor (R1-R4); the special target names handled by convertUnit ('minimum', 'auto') are also in Scale's list of units that print no suffix (R5). The normalisation is not re-implemented blindly: its parameters (length measure, threshold, suffix) are extracted from sniffUnit's code. Also: convertUnit returns v/U.Factor together with U's name for the same U (R6), CommonValueType compares against the running minimum (R7), differing units are compatible only within one family (R8), Percentage formats only absolute values (R9). Also: every column's factor slot is assigned (R10), labels are formatted without a float-to-integer detour (R11), selectOutputUnit treats all values alike with respect to divide_by (R12). Not decided: rounding, monotonicity, float behaviour at the extremes."
+	c.Explanation = "Decides the unit-table part of C15 (the float arithmetic is out of static reach): the table of known units is evaluated from its literal and checked for well-formedness — aliases are pairwise distinct across all families (no cross-family or ambiguous conversion), every alias survives the normalisation that sniffUnit applies before the lookup (so no listed spelling is dead), every canonical name that pprof prints resolves back to its own unit, factors are positive and strictly increasing inside a family, each factor equals the one its long alias implies (binary steps for bytes, SI steps for time and GCU, 3600 s per hour), the default unit of a family is one of its units with the same factor (R1-R4); the special target names handled by convertUnit ('minimum', 'auto') are also in Scale's list of units that print no suffix (R5). The normalisation is not re-implemented blindly: its parameters (length measure, threshold, suffix) are extracted from sniffUnit's code. Also: convertUnit returns v/U.Factor together with U's name for the same U (R6), CommonValueType compares against the running minimum (R7), differing units are compatible only within one family (R8), Percentage formats only absolute values (R9). Also: every column's factor slot is assigned (R10), labels are formatted without a float-to-integer detour (R11), selectOutputUnit treats all values alike with respect to divide_by (R12). Round-I additions: selectOutputUnit reads node weights through FlatValue/CumValue; a sign stripped in place by Scale is restored on every return; findByAlias compares only with entries of the aliases lists. Not decided: rounding, monotonicity, float behaviour at the extremes."
 	p := c.P
 	pk := p.Pkg("internal/measurement")
 	if pk == nil {
